@@ -290,7 +290,18 @@ fn process_deposits_for_single_pool<C: ContentAddrStore>(
         .map(|tx| tx.outputs[1].value.0)
         .fold(0u128, |a, b| a.saturating_add(b));
 
-    let total_mtsqrt = total_lefts.sqrt().saturating_mul(total_rights.sqrt());
+    // liquidity tokens are shared out in proportion to each depositor's own weight, so the weights must be taken against
+    // their own sum: sqrt(sum l) * sqrt(sum r) is in general larger (and, rounded, sometimes smaller) than sum sqrt(l) * sqrt(r)
+    let total_mtsqrt = deposits
+        .iter()
+        .map(|tx| {
+            tx.outputs[0]
+                .value
+                .0
+                .sqrt()
+                .saturating_mul(tx.outputs[1].value.0.sqrt())
+        })
+        .fold(0u128, |a, b| a.saturating_add(b));
     // main logic here
     let total_liqs = if let Some(mut pool_state) = state.pools.get(pool) {
         let liq = pool_state.deposit(total_lefts, total_rights);
